@@ -662,6 +662,15 @@ func (c *client) loopWrite() {
 		switch c.filter.Do(req) {
 		case Continue:
 		case Stop:
+			// The request is already answered by the filter, but the requests
+			// encoded before it may still sit in the buffer: they were not
+			// flushed because this one was pending behind them.
+			if len(c.pendingReqs) == 0 {
+				if err = c.enc.Flush(); err != nil {
+					c.logger.Warnf("loop write exit: %v", err)
+					return
+				}
+			}
 			continue
 		}
 
